@@ -48,6 +48,13 @@ func (c *context) ParseGo() bool {
 		return false
 	}
 
+	if len(pkgs) == 0 {
+		c.Errs.GeneralErrorf(
+			"%v: no Go package found (is the directory part of a Go module?)",
+			c.Dir)
+		return false
+	}
+
 	c.GoPackagePath = pkgs[0].PkgPath
 
 	if len(pkgs[0].Errors) != 0 {
